@@ -6,9 +6,10 @@ Two families of cases over generated commit DAGs (vf/gen/c05_gen.py):
           wants (advertised, peeled, reachable-but-unadvertised, dangling, absent) x haves (any ancestor-closed
           sub-history in any order, plus absent ids) x capability set.  The receiver is *virtual*: closure(haves).
 ``xfer``  real transfers into / out of on-disk repositories: fetch / clone / push x {LocalGitClient, dulwich
-          TCPGitClient <-> dulwich TCPGitServer, SubprocessGitClient <-> C git upload-pack/receive-pack, dulwich
-          TCPGitClient <-> C `git daemon` (protocol v0 / v2), C git client <-> dulwich TCPGitServer}, one or two
-          transfers in sequence into the same receiver.
+          TCPGitClient <-> dulwich TCPGitServer, Urllib3HttpGitClient <-> dulwich WSGI smart HTTP, SubprocessGitClient
+          <-> C git upload-pack/receive-pack, dulwich TCPGitClient <-> C `git daemon` (protocol v0 / v2), C git client
+          <-> dulwich TCPGitServer (git://) and dulwich WSGI (smart HTTP)}, one or two transfers in sequence into the
+          same receiver.
 
 Oracle (all of it computed on a model that never calls dulwich: objects are serialised and hashed by the
 generator, the closure is an own BFS, repositories are read back with `git cat-file --batch-all-objects`, packs
@@ -16,9 +17,12 @@ on the wire are parsed by vf/model/packfmt.py):
   1. completeness: after a successful transfer closure(transferred tips) is in the receiver, byte-identical,
      readable both by C git and by a freshly opened dulwich Repo; nothing the receiver had is lost;
      `git fsck --connectivity-only` passes once the transferred refs are set;
-  2. nothing extra on the wire: ids(pack) is a subset of closure(wants) [+ annotated tags whose peeled target is in
-     it when include-tag was negotiated] and of closure(advertised refs); every object in the pack is an object of
-     the sender (no alien bytes).
+  2. nothing extra on the wire (dulwich as the sender): ids(pack) is a subset of closure(wants) [+ annotated tags
+     whose peeled target is in it when include-tag was negotiated] and of closure(advertised refs); every object in
+     the pack is an object of the sender (no alien bytes); every REF-delta base outside the pack is an object the
+     receiver has.  The pack is what the dulwich client's fetch_pack hands to its pack_data callback, what
+     GIT_TRACE_PACKFILE records for a C git client, what generate_pack_data yields for a push.
+Hypothesis is the generator only (cases are collected, not shrunk: see _collecting).
 """
 
 from __future__ import annotations
@@ -49,7 +53,9 @@ RULE = (
     "commits/tags) stored loose / in C-git packs with deltas (optionally bitmap, commit-graph) / two packs / a dulwich pack. "
     "raw: one upload-pack conversation (wants x ancestor-closed haves in drawn order x capability set x done/flush pattern) "
     "against dulwich's TCP server.  xfer: receiver = closure of a drawn ancestor-closed commit set (+tags, + unrelated own "
-    "history) in a drawn layout, then 1-2 transfers (fetch/clone/push x transport x capability options x depth).  "
+    "history) in a drawn layout, then 1-2 transfers (fetch/clone/push x {local, dulwich tcp, dulwich http, C git subprocess, C git "
+    "daemon v0/v2, C git client over git:// and http against dulwich} x multi_ack none/plain/detailed, thin, ofs-delta, side-band, "
+    "include-tag, duplicate wants, default-all wants x depth 1-3).  "
     "Non-trivial = the receiver (real or virtual) is non-empty and lacks part of closure(wants), and at least one of: a "
     "non-commit object shared between what it has and what it lacks' trees, a merge among the missing commits, a tag chain or "
     "a tag whose target the receiver has among the wants, depth-limited, thin pack seen on the wire, a hostile want "
@@ -1335,8 +1341,8 @@ def run(ctx):
     finally:
         close_env()
     ctx.note("git_version", cgit.version())
-    n_raw = ctx.scale(40, 800)
-    n_xfer = ctx.scale(75, 1800)
+    n_raw = ctx.scale(50, 800)
+    n_xfer = ctx.scale(100, 1800)
     ctx.parallel(_part, [(n_xfer, n_raw)] * 16)
 
 
